@@ -11,11 +11,31 @@ class Cast(PureExec):
         PureExec.__init__(self, name, [val], type_specifier)
 
     def il_exec(self) -> str:
-        if self.value_type.signed and self.ops[0].value_type.signed:
+        if self.fill_with_msb():
             fill_bit = f"MSB({self.ops[0].il_read()})"
         else:
             fill_bit = "IL_FALSE"
         return f"CAST({self.value_type.bit_width}, {fill_bit}, {self.ops[0].il_read()})"
+
+    def fill_with_msb(self) -> bool:
+        """
+        True if the cast must extend the sign of the source value.
+        C11 - 6.3.1.3: Widening a signed value is always a sign extension. Also, if the
+        target type is unsigned (e.g. (uint64_t) -1 == 0xffffffffffffffff).
+        """
+        from rzilcompiler.Transformer.Pures.LetVar import LetVar
+
+        src = self.ops[0]
+        if self.value_type.signed and src.value_type.signed:
+            return True
+        if self.value_type.signed or not src.value_type.signed:
+            return False
+        if int(self.value_type.bit_width) <= int(src.value_type.bit_width):
+            return False
+        if isinstance(src, LetVar) and isinstance(src.get_val(), int):
+            # The sign bit of a constant is known.
+            return src.get_val() < 0
+        return True
 
     def __str__(self):
         return f"(({self.value_type}) {self.ops[0]})"
